@@ -239,7 +239,7 @@ def gen_reusable(seed, family="reuse"):
     use_timeout = rnd.random() < 0.6
     scen = {"kind": "reusable", "max_workers": 2, "timeout": 5 if use_timeout else None, "cpu_count": 2,
             "tasks": [gen_task(rnd, "plain") for _ in range(nt)], "family": family}
-    big = family == "reusebig"      # more workers than call-queue slots (2*cpu_count+1): the sentinel loop meets Full
+    big = family in ("reusebig", "reusebigcrash")   # more workers than call-queue slots (2*cpu_count+1): the sentinel loop meets Full
     if big:
         scen["cpu_count"] = 1
     grow = family == "reusegrow"    # a small pool grown while a worker may die: crashes around _resize's spawn
@@ -271,8 +271,16 @@ def gen_reusable(seed, family="reuse"):
                 elif use_timeout:
                     a["timeout"] = 7
         return ["reusable", a]
+    if family == "reusecbsub":
+        # done-callbacks that submit more work (the joblib pattern) while the owner resizes the pool
+        extra = []
+        for k in range(nt):
+            if rnd.random() < 0.5:
+                scen["tasks"][k] = dict(scen["tasks"][k], cb="submit", cb_task=nt + len(extra))
+                extra.append({"body": rnd.choice(["ok", "ok", "raise"])})
+        scen["tasks"] += extra
     users = []
-    nu = 1 if grow else rnd.choice([1, 1, 2])
+    nu = 1 if (grow or family == "reusecbsub") else rnd.choice([1, 1, 2])
     ids = list(range(nt))
     rnd.shuffle(ids)
     for u in range(nu):
@@ -292,7 +300,7 @@ def gen_reusable(seed, family="reuse"):
     scen["users"] = users
     scen["sched"] = {"p_timeout": (rnd.choice([0.02, 0.1, 0.3]) if use_timeout else 0.0),
                      "p_crash": (rnd.choice([0.0, 0.01, 0.02]) if family == "reusecrash" else
-                                 rnd.choice([0.02, 0.05]) if grow else 0.0), "max_crashes": 1}
+                                 rnd.choice([0.02, 0.05]) if (grow or family == "reusebigcrash") else 0.0), "max_crashes": 1}
     return scen
 
 
